@@ -112,6 +112,21 @@ def run(ctx):
     from .evalhelpers import local_client_witness
     report_witness(r3, "src/gwf/backends/local.py::Client.submit::accepted-id", "src/gwf/backends/local.py:1", cached_witness(ctx, "local-client", local_client_witness),
                    "a task the pool accepted (also as id 0) is returned as accepted, so it is tracked", select=lambda d: "tid=" in d)
+    # the failure test looks for 'error:' in stderr and the ids are parsed from stdout as str: the child's streams are captured, in text mode
+    for c_ in _calls(call_f.node):
+        cn = idx.canon(c_.func, call_f.module) if isinstance(c_.func, (ast.Name, ast.Attribute)) else None
+        if cn in ("subprocess.Popen", "subprocess.run"):
+            kw = {k.arg: k.value for k in c_.keywords if k.arg}
+
+            def truthy(name):
+                v = kw.get(name)
+                return isinstance(v, ast.Constant) and bool(v.value)
+            text = truthy("universal_newlines") or truthy("text") or "encoding" in kw
+            captured = (("stdout" in kw and "stderr" in kw) or truthy("capture_output"))
+            r3.check(text and captured, ccon + "::text-streams", "stdout and stderr of the scheduler command are captured as text",
+                     f"`{cn.rsplit('.', 1)[1]}` is started with {'bytes' if not text else 'text'} streams, {'both captured' if captured else 'stdout/stderr not both captured'}: "
+                     "the test for 'error:' on stderr and the parsing of job ids from stdout operate on str - with bytes they raise TypeError on every scheduler command, with an "
+                     "uncaptured stream a failing command is not recognised", loc(c_, call_f.module))
     # who may use subprocess
     allowed = {"gwf.backends.utils:call", "gwf.workflow:Workflow.shell"}
     n_sites = 0
